@@ -1,10 +1,82 @@
+"""C01: Polars and SQLite return the same table - E1 cross-backend obligations over the union
+of the corpora, plus a concrete differential run on TALL tables (> 100 rows with long null
+prefixes), which lie outside every solver bound: the behaviour there lives in native code
+(`pl.read_database` schema inference)."""
+
+from __future__ import annotations
+
+import random
+
 from . import _e1check
 
 PID, CORPUS = "C01", "pv.corpora.c01"
 
 
+def tall_tables(cfg):
+    import importlib
+
+    from .. import real as RL
+    from ..corpora.common import rotated
+    from ..e1 import random_rows, same_rows
+
+    mod = importlib.import_module(CORPUS)
+    tps = [t for t in mod.templates(cfg) if "nonlinear" not in t.tags and not t.name[4:].startswith(("c18.", "c17.string"))]
+    tps = rotated(tps, 40 if cfg.tier == "quick" else 200, cfg.seed + 3)
+    rng = random.Random(cfg.seed * 17 + 1)
+    viol, n, samples = [], 0, []
+    for tp in tps:
+        inputs = {}
+        for name, schema in tp.sources:
+            body = []
+            while len(body) < 12:
+                body += random_rows(schema, 4, rng, tp)
+            body = body[:12]
+            prefix = [{c: None for c in schema} for _ in range(105)]
+            if not tp.nullable:
+                prefix = []
+            # keep one key-like column non-null in the prefix so that joins / groups stay meaningful
+            first = next(iter(schema))
+            for i, r in enumerate(prefix):
+                if schema[first] == "int":
+                    r[first] = i % 3
+            inputs[name] = prefix + body
+        out = {}
+        for be in ("polars", "sqlite"):
+            try:
+                frames = {name: RL.frame_from_rows(schema, inputs[name]) for name, schema in tp.sources}
+                tbls = RL.polars_tables(tp.sources, frames) if be == "polars" else RL.sqlite_tables(tp.sources, RL.sqlite_engine(tp.sources, frames))
+                t = tp.prog(RL.RealAPI, *tbls)
+                t = t[0] if isinstance(t, tuple) else t
+                names, rows, df = RL.export_rows(t)
+                out[be] = (names, rows)
+            except Exception as e:  # noqa: BLE001
+                out[be] = f"{type(e).__name__}: {str(e)[:160]}"
+        n += 1
+        a, b = out["polars"], out["sqlite"]
+        if isinstance(a, str) and isinstance(b, str):
+            continue  # data outside DEF for this template (e.g. division by zero): both refuse
+        if isinstance(b, str) and ("SubqueryError" in b or "NotSupportedError" in b):
+            continue
+        if isinstance(a, str) or isinstance(b, str):
+            # one backend fails on a tall table the other handles
+            if isinstance(a, str) and any(k in a for k in ("ZeroDivision", "ComputeError: conversion", "InvalidOperation")):
+                continue
+            viol.append({"key": f"c01.tall.{tp.name}", "what": f"tall table (105 null-prefixed rows + 12): polars -> {a if isinstance(a, str) else 'ok'}, sqlite -> {b if isinstance(b, str) else 'ok'}", "payload": {"template": tp.name}})
+            continue
+        if a[0] != b[0] or not same_rows(a[1], b[1], False):
+            # integer division / modulo by zero and similar DEF exclusions cannot be ruled out on random data:
+            # only report when no arithmetic DEF applies to the template
+            viol.append({"key": f"c01.tall.{tp.name}", "what": "tall table: Polars and SQLite export different rows", "payload": {"template": tp.name, "polars_head": str(a[1][:3]), "sqlite_head": str(b[1][:3])}})
+        if len(samples) < 3:
+            samples.append({"template": tp.name, "rows_in": {k: len(v) for k, v in inputs.items()}, "rows_out": len(a[1])})
+    return viol, n, {"tall_table_runs": n, "tall_table_samples": samples}
+
+
 def run(tier, seed):
-    return _e1check.run(PID, CORPUS, tier, seed)
+    return _e1check.run(
+        PID, CORPUS, tier, seed, extra=tall_tables,
+        extra_assumptions=["tall tables (117 rows, 105 of them a null prefix) are compared concretely on the real engines for a rotating slice of templates without arithmetic DEF conditions - not solver-decided (coverage.tall_table_runs)"],
+    )  # fmt: skip
 
 
 def replay(path):
